@@ -102,9 +102,9 @@ pub fn check_c03(cfg: &Config, res: &CaseResult, acc: &mut Acc) {
         });
     }
     let h = hash128(bytes);
-    acc.distinct.insert(h);
+    acc.ins_distinct(h);
     if a.ins.iter().any(|i| is_typed(i.op.name)) {
-        acc.nontrivial.insert(h);
+        acc.ins_nontrivial(h);
     }
     // (b) offered typed opcodes at every Choice event (reference state of the bytes so far)
     if res.events.is_empty() || a.vm_err.is_some() {
@@ -135,13 +135,14 @@ pub fn check_c03(cfg: &Config, res: &CaseResult, acc: &mut Acc) {
             }
             acc.count(&format!("offered_{}", row.name), 1);
             // distinct abstract states in which it was offered
-            acc.distinct.insert(((st as u128) << 8 | *code as u128) | (1u128 << 127));
+            acc.ins_distinct(((st as u128) << 8 | *code as u128) | (1u128 << 127));
             let pre = vm.kind_preconditions(row.name);
             let arity = vm.stack_precondition(row);
             if pre.is_empty() && arity.is_none() {
                 continue;
             }
             acc.count("offered_illegal_candidates", 1);
+            acc.count(&format!("offered_illegal_{}", row.name), 1);
             // confirm with a concrete witness: steer the choice byte to this opcode
             let (Some(inp), Some(left)) = (input, entropy_left) else {
                 acc.count("offered_illegal_unconfirmable_prng_mode", 1);
@@ -188,6 +189,85 @@ pub fn check_c03(cfg: &Config, res: &CaseResult, acc: &mut Acc) {
     }
 }
 
+/// W5 object-heavy policy: take a typed opcode whenever one is offered, otherwise build the
+/// operands they need (callables, tuples, dicts, strings, marks, containers)
+pub fn object_heavy(base: &Config, salt: u64) -> Config {
+    let mut rng = Rng::new(salt);
+    let steps = 10 + rng.below(50) as usize;
+    // recipes: operand set-ups followed by the typed opcode that consumes them
+    const RECIPES: [&[&str]; 22] = [
+        &["GLOBAL", "EMPTY_TUPLE", "EMPTY_DICT", "NEWOBJ_EX"],
+        &["GLOBAL", "NONE", "TUPLE1", "EMPTY_DICT", "NEWOBJ_EX"],
+        &["GLOBAL", "EMPTY_TUPLE", "NEWOBJ"],
+        &["GLOBAL", "EMPTY_TUPLE", "REDUCE"],
+        &["GLOBAL", "MARK", "NONE", "TUPLE", "REDUCE", "EMPTY_DICT", "BUILD"],
+        &["GLOBAL", "EMPTY_TUPLE", "REDUCE", "NONE", "TUPLE1", "BUILD"],
+        &["MARK", "NONE", "INST", "MARK", "NONE", "NONE", "DICT", "BUILD"],
+        &["MARK", "GLOBAL", "NONE", "OBJ"],
+        &["MARK", "GLOBAL", "OBJ"],
+        &["MARK", "NONE", "INST"],
+        &["EMPTY_LIST", "MARK", "NONE", "NONE", "APPENDS"],
+        &["MARK", "LIST", "NONE", "APPEND"],
+        &["EMPTY_DICT", "MARK", "NONE", "NONE", "SETITEMS"],
+        &["EMPTY_DICT", "NONE", "NONE", "SETITEM"],
+        &["EMPTY_SET", "MARK", "NONE", "ADDITEMS"],
+        &["SHORT_BINUNICODE", "SHORT_BINUNICODE", "STACK_GLOBAL", "EMPTY_TUPLE", "REDUCE"],
+        &["BINUNICODE", "UNICODE", "STACK_GLOBAL"],
+        &["PERSID", "BINPERSID", "STACK_GLOBAL"],
+        &["MARK", "NONE", "NONE", "NONE", "NONE", "DICT"],
+        &["EMPTY_LIST", "DUP", "APPEND"],
+        &["EMPTY_LIST", "MEMOIZE", "POP", "BINGET", "NONE", "APPEND"],
+        &["EMPTY_DICT", "PUT", "GET", "NONE", "NONE", "SETITEM"],
+    ];
+    let mut queue: Vec<u8> = Vec::new();
+    steer(base, steps, 2, salt, |_d, p| {
+        let pos = |c: u8| p.valid.iter().position(|v| *v == c);
+        loop {
+            if let Some(&want) = queue.first() {
+                if let Some(j) = pos(want) {
+                    queue.remove(0);
+                    return j;
+                }
+                // not offered in this state / protocol: abandon the recipe
+                queue.clear();
+            }
+            if rng.below(100) < 15 {
+                return rng.below(p.valid.len() as u64) as usize;
+            }
+            let r = RECIPES[rng.below(RECIPES.len() as u64) as usize];
+            queue = r.iter().map(|n| crate::lexer::row_by_name(n).code).collect();
+            if pos(queue[0]).is_none() {
+                queue.clear();
+                return rng.below(p.valid.len() as u64) as usize;
+            }
+        }
+    })
+}
+
+/// run `n` object-heavy steered cases through `check` (with the full trace)
+pub fn steered_block<F>(n: usize, seed: u64, flags: bool, check: &F) -> Acc
+where
+    F: Fn(&Config, &CaseResult, &mut Acc) + Sync,
+{
+    par_run(
+        n,
+        Acc::new,
+        |i, acc| {
+            let proto = (i % 6) as u8;
+            let base = Config {
+                ext: flags && i % 2 == 0,
+                buf: flags && i % 4 < 2,
+                ..Config::default_for(proto, Entropy::Bytes(vec![]))
+            };
+            let cfg = object_heavy(&base, mix(seed ^ 0x0B1EC7, i as u64));
+            let res = run_case(&cfg, Some(trace_cfg()));
+            check(&cfg, &res, acc);
+            acc.count("steered_object_heavy_cases", 1);
+        },
+        |a, b| a.merge(b),
+    )
+}
+
 pub fn c03(thorough: bool, seed: u64) -> CheckOutput {
     let n = if thorough { 600_000 } else { 40_000 };
     let sp = Space::safe();
@@ -197,7 +277,7 @@ pub fn c03(thorough: bool, seed: u64) -> CheckOutput {
         step_limit: 0,
     };
     let mut acc = bulk(n, seed, &sp, Some(tr), check_c03);
-    let (ex_depth, max_depth, budget) = if thorough { (3, 16, 4_000_000u64) } else { (2, 9, 150_000u64) };
+    let (ex_depth, max_depth, budget) = if thorough { (4, 18, 60_000_000u64) } else { (3, 10, 2_400_000u64) };
     let mut explore_json = vec![];
     for proto in 0..6u8 {
         for filler_kind in [0u8, 2u8] {
@@ -211,6 +291,8 @@ pub fn c03(thorough: bool, seed: u64) -> CheckOutput {
                 "levels": st.levels, "abstract_states": st.abstract_states, "max_depth": st.max_depth}));
         }
     }
+    let st = steered_block(if thorough { 60_000 } else { 6_000 }, seed, true, &check_c03);
+    acc.merge(st);
     let min_exec = if thorough { 1000 } else { 50 };
     for name in &TYPED[..13] {
         if acc.get(&format!("executed_{}", name)) < min_exec {
@@ -401,12 +483,12 @@ pub fn check_c17(cfg: &Config, res: &CaseResult, acc: &mut Acc) {
     }
     acc.count("steps_compared", steps);
     let h = hash128(bytes);
-    acc.distinct.insert(h);
+    acc.ins_distinct(h);
     if steps >= 3 {
-        acc.nontrivial.insert(h);
+        acc.ins_nontrivial(h);
     }
     for t in transitions {
-        acc.distinct.insert((t as u128) | (1u128 << 127));
+        acc.ins_distinct((t as u128) | (1u128 << 127));
     }
     if steps == 0 && !res.events.is_empty() && ins.len() > 3 {
         acc.count("cases_without_step_events", 1);
@@ -423,7 +505,7 @@ pub fn c17(thorough: bool, seed: u64) -> CheckOutput {
     sp.ranges = vec![(0, 0), (0, 1), (1, 1), (7, 3), (2, 9), (60, 300), (300, 60), (10, 50), (600, 900)];
     let tr = trace_cfg();
     let mut acc = bulk(n, seed, &sp, Some(tr), check_c17);
-    let (ex_depth, max_depth, budget) = if thorough { (3, 16, 4_000_000u64) } else { (2, 9, 150_000u64) };
+    let (ex_depth, max_depth, budget) = if thorough { (4, 18, 60_000_000u64) } else { (3, 10, 2_400_000u64) };
     let mut explore_json = vec![];
     for proto in 0..6u8 {
         for filler_kind in [0u8, 2u8] {
@@ -437,6 +519,8 @@ pub fn c17(thorough: bool, seed: u64) -> CheckOutput {
                 "levels": st.levels, "abstract_states": st.abstract_states, "max_depth": st.max_depth}));
         }
     }
+    let st = steered_block(if thorough { 60_000 } else { 6_000 }, seed, true, &check_c17);
+    acc.merge(st);
     if acc.get("steps_compared") < 10_000 {
         acc.inconclusive.push("too few step snapshots compared (hook stream empty?)".into());
     }
@@ -573,9 +657,9 @@ pub fn check_c11(cfg: &Config, res: &CaseResult, acc: &mut Acc) {
         acc.count("cases_without_run_event", 1);
     }
     let h = hash128(bytes);
-    acc.distinct.insert(h);
+    acc.ins_distinct(h);
     if target.unwrap_or(0) >= 2 {
-        acc.nontrivial.insert(h);
+        acc.ins_nontrivial(h);
     }
     let class = if max < min {
         "range_inverted"
@@ -633,7 +717,7 @@ pub fn c11(thorough: bool, seed: u64) -> CheckOutput {
 
 pub fn c12(thorough: bool, seed: u64) -> CheckOutput {
     // fixed seed block [0, N) per protocol (deterministic => verdict is a function of the tree)
-    let n_per = if thorough { 60_000usize } else { 8_000usize };
+    let n_per = if thorough { 400_000usize } else { 60_000usize };
     let n_extra = n_per / 4;
     #[derive(Default)]
     struct Cov {
@@ -678,8 +762,8 @@ pub fn c12(thorough: bool, seed: u64) -> CheckOutput {
                 return;
             };
             let h = hash128(bytes);
-            acc.distinct.insert(h);
-            acc.nontrivial.insert(h);
+            acc.ins_distinct(h);
+            acc.ins_nontrivial(h);
             let mut framed = false;
             for ins in &l.ins {
                 let m = if flags { &mut c.seen_flags } else { &mut c.seen };
@@ -903,9 +987,9 @@ pub fn check_c15(cfg: &Config, res: &CaseResult, acc: &mut Acc) {
         acc.count("draws_at_rate1", draws);
     }
     let h = hash128(bytes);
-    acc.distinct.insert(h);
+    acc.ins_distinct(h);
     if draws > 0 {
-        acc.nontrivial.insert(h);
+        acc.ins_nontrivial(h);
     }
     if acc.samples.len() < 3 && draws > 2 {
         let mut s = json!({"config": cfg.to_json(), "draws": draws, "mutations": muts});
